@@ -120,6 +120,12 @@ def trapScalar (mode : TrapMode) (bs : List Idx) (f : Idx → Rat) (prior : Rat)
   | .runningMax => max (maxOver bs f) prior
   | _ => maxOver bs f
 
+/-- the amount applied at one vertex: its own violation in `perElement` mode, the shared scalar otherwise -/
+def trapAmount (mode : TrapMode) (own scalar : Rat) : Rat :=
+  match mode with
+  | .perElement => max own 0
+  | _ => scalar
+
 /-- state of the `for j` loop: weights and the two carried updates -/
 structure TrapState where
   w : W
@@ -133,12 +139,12 @@ def trapStep (bs : List Idx) (m c M N : Nat) (pos : Bool) (mode : TrapMode) (s :
   let lhsU := trapScalar mode bs (lhsDiff s.w m c N pos j) s.lhs
   let w1 : W := fun idx =>
     if coord idx m = 0 ∧ coord idx c = jn N pos j then
-      s.w idx - (match mode with | .perElement => max (lhsDiff s.w m c N pos j idx) 0 | _ => lhsU)
+      s.w idx - trapAmount mode (lhsDiff s.w m c N pos j idx) lhsU
     else s.w idx
   let rhsU := trapScalar mode bs (rhsDiff w1 m c M N pos j) s.rhs
   let w2 : W := fun idx =>
     if coord idx m = M - 1 ∧ coord idx c = jn N pos j then
-      w1 idx + (match mode with | .perElement => max (rhsDiff w1 m c M N pos j idx) 0 | _ => rhsU)
+      w1 idx + trapAmount mode (rhsDiff w1 m c M N pos j idx) rhsU
     else w1 idx
   ⟨w2, lhsU, rhsU⟩
 
@@ -166,12 +172,12 @@ def trapStepT (sizes : List Nat) (m c M N : Nat) (pos : Bool) (mode : TrapMode) 
   let lhsU := trapScalar mode bs (lhsDiff s.t.get m c N pos j) s.lhs
   let t1 := tabulate sizes (fun idx =>
     if coord idx m = 0 ∧ coord idx c = jn N pos j then
-      s.t.get idx - (match mode with | .perElement => max (lhsDiff s.t.get m c N pos j idx) 0 | _ => lhsU)
+      s.t.get idx - trapAmount mode (lhsDiff s.t.get m c N pos j idx) lhsU
     else s.t.get idx)
   let rhsU := trapScalar mode bs (rhsDiff t1.get m c M N pos j) s.rhs
   let t2 := tabulate sizes (fun idx =>
     if coord idx m = M - 1 ∧ coord idx c = jn N pos j then
-      t1.get idx + (match mode with | .perElement => max (rhsDiff t1.get m c M N pos j idx) 0 | _ => rhsU)
+      t1.get idx + trapAmount mode (rhsDiff t1.get m c M N pos j idx) rhsU
     else t1.get idx)
   ⟨t2, lhsU, rhsU⟩
 
